@@ -274,6 +274,17 @@ def exactsum_skips_first():
     l = [('a', 1), ('b', 3)]
     return exactsum(l, 3) == [('b', 3)] and exactsum(l, 4) in ([('b', 3), ('a', 1)], [('a', 1), ('b', 3)]) and exactsum(l, 2) is False
 
+def keccak_duplex_flag():
+    from crysp.keccak import Keccak
+    k = Keccak(b=200, r=72, len=80); ref = Keccak(b=200, r=72, len=80)(bytes(range(70)), 13)
+    k.duplex(b'x', 3)
+    return k(bytes(range(70)), 13) == ref
+
+def nilsimsa_call_after_update():
+    from crysp.nilsimsa import Nilsimsa
+    o = Nilsimsa(); o.update(b'abc')
+    return o(bytes(range(70))) == Nilsimsa()(bytes(range(70)))
+
 ALL = [v for k, v in list(globals().items()) if callable(v) and not k.startswith('_') and getattr(v, '__module__', None) == '__main__']
 
 if __name__ == '__main__':
